@@ -1399,6 +1399,9 @@ def to_iter(it, x, fr):
         return IterV(iter(list(x.fields)), 'array.into_iter', exact=len(x.fields))
     if type(x) is Agg and x.ty == 'Option':
         return IterV(iter(list(x.fields) if x.variant == 1 else []), 'option.iter')
+    if type(x) is Agg and x.ty == 'Result':
+        # impl IntoIterator for Result<T, E>: yields the Ok value, nothing for Err
+        return IterV(iter(list(x.fields) if x.variant == 0 else []), 'result.into_iter')
     raise Unsupported('not iterable: %r' % (x,))
 
 
@@ -2899,3 +2902,8 @@ def m_iter_skip_while(it, args, fr, callee):
             skipping = False
             yield cell[0]
     return IterV(gen(), 'skip_while')
+
+
+@model('must_use', 'std::hint::must_use', 'core::hint::must_use', 'std::hint::black_box', 'core::hint::black_box')
+def m_must_use(it, args, fr, callee):
+    return args[0]
